@@ -54,8 +54,8 @@ def program_slices(tier):
                         tys2=("string",), fattrsets2=([], ["skip"]))))
     sl.append(("S4", sc(["struct"], [], [[], ["rename"]], ["tuple", "named"], [], [], ["i32", "inner"], [[], ["skip"]], tys2=("string",), fattrsets2=([], ["skip"]))))
     # two flattened fields (disjoint keys), with and without an own property / a tag next to them; also in struct variants
-    sl.append(("S6", sc(["struct"], [], [[], ["tag"]], ["named"], [], [], ["inner", "gen_inner", "oneu", "i32"], [["flatten"], []],
-                        tys2=("pair",), fattrsets2=(["flatten"],))))
+    sl.append(("S6", sc(["struct"], [], [[], ["tag"]], ["named"], [], [], ["gen_inner", "oneu", "pair", "i32"], [["flatten"], []],
+                        tys2=("inner",), fattrsets2=(["flatten"],))))        # (no two types with a key in common)
     sl.append(("E8", sc(["enum"], reprs, [[]], [], ["struct2"], [[]], ["inner", "gen_inner"], [["flatten"]], tys2=("pair",), fattrsets2=(["flatten"],))))
     # generic programs P<T>, instantiated at i32 / Inner / Option<i32> (thorough: also Vec<Inner>, UnitE)
     gargs = ["i32", "inner", "opt_i32"] if q else list(corpus.GEN_ARGS)
